@@ -51,13 +51,21 @@ InitWhy(e) ==
     THEN <<"init must reject before anything is written", "rejected", e.rejected, "mutated", e.mutated>>
     ELSE <<"valid init rejected or without effect", "rejected", e.rejected, "mutated", e.mutated>>
 
+\* a SEQUENCE of `init` runs over one document: after every run the typegen entry read back holds the settings of THAT
+\* run (written / loaded : records over the same keys, booleans canonical), and the rest of the document is untouched
+InitSeqOk(e) == ~e.rejected /\ e.loaded = e.written /\ e.restPreserved
+InitSeqWhy(e) == <<"after init the document does not hold the settings of this run", "rejected", e.rejected,
+                   "differing", {k \in DOMAIN e.written : k \notin DOMAIN e.loaded \/ e.loaded[k] # e.written[k]}, "rest preserved", e.restPreserved>>
+
 Judge(e) == CASE e.event = "ConfigSaved" -> SavedOk(e)
+              [] e.event = "InitSeq"     -> InitSeqOk(e)
               [] e.event = "InitRun"     -> InitOk(e)
               [] e.event = "Precedence"  -> PrecOk(e)
               [] OTHER -> FALSE
 Why(e) == CASE e.event = "ConfigSaved" -> SavedWhy(e)
             [] e.event = "Precedence"  -> PrecWhy(e)
             [] e.event = "InitRun"     -> InitWhy(e)
+            [] e.event = "InitSeq"     -> InitSeqWhy(e)
             [] OTHER -> <<"unknown event">>
 
 TraceInit == l = 1
